@@ -41,6 +41,8 @@ CONSTANTS
   \* @type: Set(Str);
   Rid         \* component render ids (referrers other than the providers themselves)
 
+ASSUME PidRidDisjoint == Pid \cap Rid = {}
+
 Ref == Pid \cup Rid
 
 VARIABLES
